@@ -164,6 +164,7 @@ type FuncSpec struct {
 	Mutates  []string
 	Reveal   []string
 	Asserts  map[int][]*Clause // ghost assertions after the N-th call (source order, builtins excluded)
+	Before   map[int][]*Clause // ghost assertions just before the N-th call
 	Cuts     map[int]bool      // "after call N cut:" everything learnt since entry is forgotten after these assertions
 	Use      map[int][]string  // "at call N use: l1, l2": only these callee postconditions are assumed at that call
 	// sortspec (comparator closures passed to sort.Slice)
@@ -599,7 +600,7 @@ func parseExprString(src string) (e Expr, err error) {
 
 // ---------- file-level parsing ----------
 
-var declKeywords = map[string]bool{"at": true, "sortspec": true, "after": true, "assert": true, "opaque": true, "reveal": true, "import": true, "ghost": true, "fun": true, "pred": true, "ufun": true,
+var declKeywords = map[string]bool{"before": true, "at": true, "sortspec": true, "after": true, "assert": true, "opaque": true, "reveal": true, "import": true, "ghost": true, "fun": true, "pred": true, "ufun": true,
 	"axiom": true, "func": true, "extern": true, "lemma": true, "requires": true, "ensures": true,
 	"modifies": true, "loop": true, "invariant": true, "pure": true, "free": true, "trusted": true, "mutates": true,
 	"package": true}
@@ -796,7 +797,7 @@ func (db *SpecDB) LoadSpecFile(path string, pkgPath string) error {
 			db.Axioms = append(db.Axioms, &Axiom{Name: name, E: e, PkgPath: pkgPath, File: path})
 			cur, curLoop, curLemma = nil, nil, nil
 		case "extern", "func":
-			fs := &FuncSpec{Loops: map[int]*LoopSpec{}, Asserts: map[int][]*Clause{}, Cuts: map[int]bool{}, Use: map[int][]string{}, File: path, Line: ll.line, PkgPath: pkgPath}
+			fs := &FuncSpec{Loops: map[int]*LoopSpec{}, Asserts: map[int][]*Clause{}, Before: map[int][]*Clause{}, Cuts: map[int]bool{}, Use: map[int][]string{}, File: path, Line: ll.line, PkgPath: pkgPath}
 			curCall = 0
 			r := rest
 			if kw == "extern" {
@@ -974,6 +975,19 @@ func (db *SpecDB) LoadSpecFile(path string, pkgPath string) error {
 					return fail(ll, "sortspec: unknown key "+k)
 				}
 			}
+		case "before":
+			if cur == nil {
+				return fail(ll, "before outside func")
+			}
+			{
+				var n int
+				fmt.Sscanf(strings.TrimSuffix(strings.TrimSpace(strings.TrimPrefix(rest, "call")), ":"), "%d", &n)
+				if n <= 0 {
+					return fail(ll, "before call N:")
+				}
+				curCall = -n
+				curLoop = nil
+			}
 		case "after":
 			if cur == nil {
 				return fail(ll, "after outside func")
@@ -1004,7 +1018,11 @@ func (db *SpecDB) LoadSpecFile(path string, pkgPath string) error {
 			if err != nil {
 				return fail(ll, err)
 			}
-			cur.Asserts[curCall] = append(cur.Asserts[curCall], &Clause{Kind: "assert", Tags: tags, Label: label, E: e, Src: body})
+			if curCall < 0 {
+				cur.Before[-curCall] = append(cur.Before[-curCall], &Clause{Kind: "assert", Tags: tags, Label: label, E: e, Src: body})
+			} else {
+				cur.Asserts[curCall] = append(cur.Asserts[curCall], &Clause{Kind: "assert", Tags: tags, Label: label, E: e, Src: body})
+			}
 		case "loop":
 			curCall = 0
 			if cur == nil {
